@@ -684,6 +684,21 @@ def ser_narrowing_rule(ctx):
                         used[key] = used.get(key, 0) + 1
                     else:
                         bad.append('%s: %s as %s at %s' % (short_fn(fl), s['rv']['from'], s['rv']['to'], short_loc(s.get('span'))))
+                # f64 -> f32: out-of-range values become +-inf, small ones 0, the rest lose bits - "the same logical value"
+                # only if the result is compared back with the original (f64::from(x as f32) == x, else Err)
+                if 'assign' in s and s['rv']['k'] == 'cast' and s['rv']['cast'] == 'FloatToFloat' and s['rv']['from'] == 'f64' and s['rv']['to'] == 'f32':
+                    dst = s['assign'].get('l')
+                    checked = False
+                    for sbb in sorted(b.live_blocks()):
+                        if b.term(sbb)['k'] != 'switch' or not b.dominates(bb, sbb):
+                            continue
+                        cond = switch_condition(b, b.switch_info(sbb)) if b.switch_info(sbb).get('kind') != 'enum' else ('other',)
+                        if cond[0] == 'cmp' and cond[1] in ('Eq', 'Ne'):
+                            lo, ro = origin(b, cond[2]), origin(b, cond[3])
+                            if any('cast:FloatToFloat:f32->f64' in x or x.startswith('cast:FloatToFloat') for x in (lo.flags | ro.flags)):
+                                checked = True
+                    ctx.ob('RANGE', 'float-narrowing/%s' % short_fn(fl).rsplit('::', 1)[-1], checked, short_loc(s.get('span')),
+                           'f64 narrowed to f32 with `as` on its way to the wire (1e40 is written as +inf, 1e-60 as 0, 0.1 as 0.100000001490116...): compared back with the original: %s' % checked)
         for bb, t in b.calls():
             c = t.get('callee') or ''
             if c.startswith('std::io::Write::') and not c.endswith(('::write_all', '::write_fmt')) and not b.is_cleanup(bb):
